@@ -148,6 +148,13 @@ let () =
         let keys = ref [] in
         let note k = if not (List.mem k !keys) then keys := k :: !keys in
         let log = ref [] and issues = ref [] in
+        (* the implementation's reaction to each failed Store operation (r = repeated inside its slot) *)
+        let errs_obs = ref (try
+            let f = List.find (fun t -> String.length t > 5 && String.sub t 0 5 = "errs=") (tokens il) in
+            let v = String.sub f 5 (String.length f - 5) in
+            if v = "-" then [] else String.split_on_char ',' v
+          with Not_found -> []) in
+        let errs_out = ref [] in
         List.iter (fun o ->
           match String.split_on_char ':' o with
           | [("pa" | "ps") as kind; k; v] ->
@@ -160,7 +167,11 @@ let () =
             Hashtbl.replace tbl k (ow_step w (OIssue WDel))
           | [("ok" | "err") as c; k] ->
             note k; let w = get k in
-            let w' = ow_step w (OComplete (c = "ok")) in
+            let retried = if c = "err" && w.q_infl <> None then
+                (match !errs_obs with x :: r -> errs_obs := r; errs_out := x :: !errs_out; x = "r"
+                                    | [] -> errs_out := "f" :: !errs_out; false)
+              else false in
+            let w' = ow_step w (OComplete (c = "ok", retried)) in
             (if List.length w'.q_log > List.length w.q_log then
                match w'.q_log with
                | (_, WPut v) :: _ -> log := (k ^ ":P" ^ si v) :: !log
@@ -178,14 +189,15 @@ let () =
             | "pa", Some (_, false) -> "E" | "pa", _ -> "-"
             | _, Some (_, true) -> "ok" | _, Some (_, false) -> "err" | _, None -> "pend") (List.rev !issues) in
         let j l = if l = [] then "-" else String.concat "," l in
-        Printf.printf "store=%s log=%s infl=%s res=%s\n" (j sv) (j (List.rev !log)) (j inf) (j res)
+        Printf.printf "store=%s log=%s infl=%s res=%s errs=%s\n" (j sv) (j (List.rev !log)) (j inf) (j res)
+          (j (List.rev !errs_out))
       with e -> print_endline ("modelerror " ^ Printexc.to_string e))
     | "race" :: _ ->
       (* two concurrent checkpoints of one session, images marshalled in the order old, new.  HEAD / repaired: the
          write slots are taken in marshalling order; d_ckrace (before the fix): in reverse order *)
       let evs = if variant = "d_ckrace"
-        then [OIssue (WPut (ni 2)); OIssue (WPut (ni 1)); OComplete true; OComplete true]
-        else [OIssue (WPut (ni 1)); OIssue (WPut (ni 2)); OComplete true; OComplete true] in
+        then [OIssue (WPut (ni 2)); OIssue (WPut (ni 1)); OComplete (true, false); OComplete (true, false)]
+        else [OIssue (WPut (ni 1)); OIssue (WPut (ni 2)); OComplete (true, false); OComplete (true, false)] in
       let w = List.fold_left ow_step ow_init evs in
       print_endline (match w.q_val with Some v when int_of_n v = 2 -> "stale=no" | _ -> "stale=yes")
     | "sq" :: ops ->
